@@ -164,29 +164,24 @@ theorem pyNew_ok (lines : List (List Char)) (start : Nat) (h : start < lines.len
       simp only [List.length_nil, List.length_drop] at this
       omega
 
-theorem pyOldGo_consumed (ls : List (List Char)) (base : Option Nat) (acc : List (List Char)) :
-    acc.length + 2 ≤ (pyOldGo ls base acc).2 ∧ (pyOldGo ls base acc).2 ≤ acc.length + ls.length + 2 := by
-  induction ls generalizing base acc with
+theorem pyOldGo_consumed (ls : List (List Char)) (acc : List (List Char)) :
+    acc.length + 2 ≤ (pyOldGo ls acc).2 ∧ (pyOldGo ls acc).2 ≤ acc.length + ls.length + 2 := by
+  induction ls generalizing acc with
   | nil => simp [pyOldGo]
   | cons l rest ih =>
     unfold pyOldGo
     split
     · simp
-    · have := ih (if base.isNone && !(stripL l).isEmpty then some (l.length - (lstripL l).length) else base)
-      dsimp only
-      constructor
-      · refine Nat.le_trans ?_ (this _).1
-        simp
-      · refine Nat.le_trans (this _).2 ?_
-        simp only [List.length_cons]
-        omega
+    · have := ih (l :: acc)
+      simp only [List.length_cons] at this ⊢
+      omega
 
 /-- **legacy `<<py` blocks**: at least two lines are used and the index lands at most one past the end of the text
 (an unclosed legacy block silently runs to the end) -/
 theorem pyOld_consumed (lines : List (List Char)) (start : Nat) (h : start < lines.length) :
     2 ≤ (pyOld lines start).2 ∧ start + (pyOld lines start).2 ≤ lines.length + 1 := by
   unfold pyOld
-  have := pyOldGo_consumed (lines.drop (start + 1)) none []
+  have := pyOldGo_consumed (lines.drop (start + 1)) []
   simp only [List.length_nil, List.length_drop] at this
   omega
 
